@@ -39,3 +39,43 @@ Theorem C16_empty_and_mismatched_batches_are_errors : forall (K : Fld) ofN mode 
   (ns = 0 \/ np = 0 \/ nt = 0) \/ (ns <> np \/ nt <> ns) -> verify_batch K ofN mode ns np nt ms orc = Err.
 Proof. intros K ofN mode ns np nt ms orc [H|H]; [now apply batch_refuses_empty|now apply batch_refuses_length_mismatch]. Qed.
 Print Assumptions C16_empty_and_mismatched_batches_are_errors.
+
+(** further partial operations of [RangeProof::verify] and the guards that precede them *)
+From Coq Require Import Lia.
+From BP Require Import Model.Ctor Proofs.CtorP.
+Local Close Scope N_scope.
+
+(** [1 << rounds]: the round-count guard is only passed with rounds < 64, so the shift cannot overflow *)
+Theorem C16_round_guard_bounds_shift : forall (K : Fld) (mb : member K),
+  rounds_ok K mb = true ->
+  length (p_li (mb_proof K mb)) = length (p_ri (mb_proof K mb)) /\ length (p_li (mb_proof K mb)) < 64 /\
+  (2 ^ N.of_nat (length (p_li (mb_proof K mb))) = N.of_nat (mb_N K mb))%N.
+Proof.
+  intros K mb. unfold rounds_ok.
+  destruct (Nat.eqb_spec (length (p_li (mb_proof K mb))) (length (p_ri (mb_proof K mb)))) as [E|E]; cbn [negb]; [|discriminate].
+  destruct (Nat.ltb_spec (length (p_li (mb_proof K mb))) 64) as [L|L]; cbn [negb]; [|discriminate].
+  intros H. apply N.eqb_eq in H. auto.
+Qed.
+Print Assumptions C16_round_guard_bounds_shift.
+
+(** [d.get((j - 1) * bit_length + i)] for 1 <= j < m, i < bits: the index is inside the (j * bits) entries already pushed *)
+Theorem C16_d_index_in_range : forall bits j i, 1 <= j -> i < bits -> (j - 1) * bits + i < j * bits.
+Proof. intros bits j i Hj Hi. destruct j as [|j]; [lia|]. cbn [Nat.sub]. rewrite Nat.sub_0_r. cbn [Nat.mul]. lia. Qed.
+Print Assumptions C16_d_index_in_range.
+
+(** [aggregation_factor.ilog2()] (panics on 0): a statement that passed its constructor has a power-of-two,
+    hence non-zero, number of commitments *)
+Theorem C16_aggregation_ilog2_defined : forall cap count pcount seed st,
+  statement_init cap count pcount seed = Some st -> (1 <= count)%N /\ exists a, count = (2 ^ a)%N.
+Proof.
+  intros cap count pcount seed st H.
+  assert (E : exists x, statement_init cap count pcount seed = Some x) by eauto.
+  apply statement_init_ok_iff in E. destruct E as ((a & ->) & _). split; [|eauto].
+  apply N.lt_pred_le. cbn. apply N.neq_0_lt_0, N.pow_nonzero. lia.
+Qed.
+Print Assumptions C16_aggregation_ilog2_defined.
+
+(** [slice::chunks(n)] panics on n = 0: the chunk size of the model is the non-zero constant 256, whatever the batch *)
+Theorem C16_chunk_size_nonzero : MAX_BATCH = 256 /\ 0 < MAX_BATCH.
+Proof. unfold MAX_BATCH. split; [reflexivity|lia]. Qed.
+Print Assumptions C16_chunk_size_nonzero.
